@@ -295,7 +295,25 @@ def check_network(H, wkind):
                 if not np.allclose(D, D.T, atol=1e-9):
                     ck.bad("normalized-symmetry", f"{lab} is not symmetric")
                 w = {e: (wts[e] if weighted else 1) for e in edges}
+                if nonunit:
+                    # Inside the scope of known finding D13 the textbook comparison below is suppressed; so that any *other*
+                    # deviation is still reported there, the output is also compared with the formula the library
+                    # implements and its maintainers pin (test_fix_647): the same expression with unweighted d(v).
+                    du = {u: sum(1 for e in edges if u in mem[e]) for u in nodes}
+                    impl = np.zeros((n, n))
+                    for i in range(n):
+                        for j in range(n):
+                            u, v = rd[i], rd[j]
+                            acc = sum(w[e] / len(mem[e]) for e in edges if u in mem[e] and v in mem[e])
+                            impl[i, j] = (1.0 if i == j else 0.0) - acc / math.sqrt(du[u] * du[v])
+                    if not np.allclose(D, impl, atol=1e-9):
+                        ck.bad("normalized-as-implemented", f"{lab} differs even from the implemented variant I - Du^-1/2 H W De^-1 "
+                               f"H^T Du^-1/2 (unweighted d(v), see known finding D13): got {np.round(D, 4).tolist()}, expected "
+                               f"{np.round(impl, 4).tolist()}; weights {wts}", function="normalized_hypergraph_laplacian",
+                               weighted=True, nonunit_weights="beyond D13")
                 dv = {u: sum(w[e] for e in edges if u in mem[e]) for u in nodes}
+                if any(x <= 0 for x in dv.values()):
+                    continue  # a vertex of zero weighted degree: the textbook expression is undefined
                 want = np.zeros((n, n))
                 for i in range(n):
                     for j in range(n):
@@ -316,7 +334,8 @@ def check_network(H, wkind):
     return ck
 
 
-WEIGHTS = {"absent": None, "ones": lambda i: 1, "fraction": lambda i: [0.5, 1, 0.25][i % 3], "large": lambda i: [4, 1, 2.5][i % 3]}
+WEIGHTS = {"absent": None, "ones": lambda i: 1, "fraction": lambda i: [0.5, 1, 0.25][i % 3], "large": lambda i: [4, 1, 2.5][i % 3],
+           "zeros": lambda i: [0, 2, 0.0, 1][i % 4], "numpy": lambda i: [np.float64(0.5), np.int64(2), np.float32(1.5)][i % 3]}
 
 
 def _work(item):
@@ -360,13 +379,17 @@ def family(tier):
         # non-positional labels: string nodes inserted in reverse, decreasing gapped edge IDs
         t = F.relabel(s, node_map={n: "v%d" % (9 - n) for n in s["nodes"]}, edge_ids=[10 * (m - i) for i in range(m)],
                       reverse_nodes=True)
-        wk = ["ones", "fraction", "large"][k % 3]
+        wk = ["ones", "fraction", "large", "zeros", "numpy"][k % 5]
         t["eattr"] = {i: {"weight": WEIGHTS[wk](i)} for i in range(m)}
         items.append((t, wk))
         if k % 5 == 0 and m:
             u = dict(s)
             u["eattr"] = {i: {"weight": WEIGHTS["large"](i)} for i in range(m)}
             items.append((u, "large"))
+        if k % 7 == 0 and m:
+            u = dict(s)
+            u["eattr"] = {i: {"weight": WEIGHTS["zeros"](i)} for i in range(m)}
+            items.append((u, "zeros"))
     for s in base[::9]:
         for _, nm in F.exotic_label_maps(s["nodes"]):
             items.append((F.relabel(s, node_map=nm), "absent"))
